@@ -190,7 +190,8 @@ class EntropicLoss(HedgeLoss):
         return -exp_utility(input - target, a=self.a).mean(0)
 
     def cash(self, input: Tensor, target: TensorOrScalar = 0.0) -> Tensor:
-        return -(-exp_utility(input - target, a=self.a).mean(0)).log() / self.a
+        # -log(mean(exp(-a x))) / a, evaluated through logsumexp so that it does not overflow
+        return -entropic_risk_measure(input - target, a=self.a)
 
 
 class IsoelasticLoss(HedgeLoss):
